@@ -86,5 +86,6 @@ NOINL uint32_t K_timeout_event(uint32_t i)
     return fired;
 }
 NOINL uint32_t K_is_blocked(uint32_t i) { return K_blocked[i]; }
+NOINL void K_try_unblock(uint32_t i) { }
 NOINL uint32_t K_can_timeout(uint32_t i) { return K_blocked[i] && K_finite[i]; }
 }
